@@ -464,3 +464,42 @@ func (c *Ctx) fieldRefs(f *types.Var) []fieldRef {
 func fnKey(fn *ssa.Function) string { return prog.Name(fn) }
 
 func sprintf(f string, a ...any) string { return fmt.Sprintf(f, a...) }
+
+// funcHandedTo resolves the function value a caller hands to a callee as its LAST argument: a closure literal, a bound
+// method value (s.method, through the $bound wrapper) or a plain function. Used instead of name anchors such as
+// "(*Manager).Save$1", which disappear when a closure becomes a method value (neutral batch 8).
+func (c *Ctx) funcHandedTo(rule string, caller, callee *ssa.Function) *ssa.Function {
+	if caller == nil || callee == nil {
+		return nil
+	}
+	for _, b := range caller.Blocks {
+		for _, in := range b.Instrs {
+			ci, ok := in.(ssa.CallInstruction)
+			if !ok || ci.Common().StaticCallee() != callee || len(ci.Common().Args) == 0 {
+				continue
+			}
+			v := unwrap0(ci.Common().Args[len(ci.Common().Args)-1])
+			var fn *ssa.Function
+			switch x := v.(type) {
+			case *ssa.MakeClosure:
+				fn, _ = x.Fn.(*ssa.Function)
+			case *ssa.Function:
+				fn = x
+			}
+			if fn != nil && fn.Synthetic != "" && len(fn.Blocks) > 0 { // $bound / $thunk wrapper
+				if m := boundOf(fn); m != nil {
+					fn = m
+				}
+			}
+			if fn != nil && len(fn.Blocks) > 0 {
+				if c.anchors == nil {
+					c.anchors = map[*ssa.Function]bool{}
+				}
+				c.anchors[fn] = true
+				return fn
+			}
+		}
+	}
+	c.R.Unknown(rule, "anchor:func-handed-to:"+prog.Name(callee), "-", "the function value "+prog.Name(caller)+" hands to "+prog.Name(callee)+" cannot be resolved")
+	return nil
+}
